@@ -9,7 +9,7 @@ for d in sorted(glob.glob('/verif/seeded/C*-*'), key=lambda p:(p.split('/')[-1].
     det=[l for l in open(d+'/detection.txt').read().strip().split('\n') if l.strip()] if os.path.exists(d+'/detection.txt') else []
     first=det[0] if det else ''
     caught=[l for l in det if 'exit=1' in l]
-    missed_first = bool(det) and 'exit=0' in first
+    missed_first = bool(det) and 'exit=1' not in first
     by=sorted(set(l.split()[0].split('(')[0] for l in caught))
     key=''
     if caught:
